@@ -143,3 +143,113 @@ class EqualizedOddsEntries(NdContract):
         else:
             out.append(("returns_a_fitted_interpolated_thresholder", BoolVal(False)))
         return out
+
+
+class EqualizedOddsCurves(NdContract):
+    """First part of _threshold_optimization_for_equalized_odds: from the start of the method to the end of the loop over the groups (wiring contract).
+    Every group's ROC hull is built from ITS rows with the CALLER'S flip setting and the callee's default metrics (false/true positive rate - checked on the
+    callee's signature), interpolated at the shared grid linspace(0, 1, grid_size + 1), stored under the group's value, and its y column collected."""
+    source, function = TO, "ThresholdOptimizer._threshold_optimization_for_equalized_odds"
+    prune = False
+
+    def body(self, fn):
+        for idx, s in enumerate(fn.body):
+            if isinstance(s, ast.For) and "data_grouped_by_sensitive_feature" in ast.unparse(s.iter):
+                return [x for x in fn.body[:idx + 1] if not (isinstance(x, ast.Expr) and isinstance(x.value, ast.Constant))]
+        raise Unsupported("the loop over the groups was not found")
+
+    def droppable(self, s):
+        return isinstance(s, ast.Expr) and isinstance(s.value, ast.Call) and ast.unparse(s.value.func).startswith("logger.")
+
+    def params(self, eng, st):
+        self.sf, self.labels, self.scores, self.flip = Abstract("sf"), Abstract("labels"), Abstract("scores"), Abstract("flip")
+        self.gs = Int("grid_size")
+        st.assume(M >= 1, self.gs >= 1)
+        st.env.update({"self": Obj("ThresholdOptimizer", {"grid_size": self.gs, "flip": self.flip}), "sensitive_features": self.sf, "labels": self.labels, "scores": self.scores})
+
+    def on_call(self, eng, st, node, name, recv, args, kwargs):
+        if name == "_reformat_and_group_data":
+            eng.oblige(st, "groups_of_the_given_rows", BoolVal(len(args) == 3 and args[0] is self.sf and args[1] is self.labels and args[2] is self.scores and not kwargs), "wiring", node)
+            return Abstract("grouped")
+        if name == "len" and args[0] is self.labels:
+            return Int("n_rows")
+        if name == "isinstance" and args[0] is self.labels:
+            return False
+        if name == "sum" and args and args[0] is self.labels:
+            return Int("n_positive")
+        if name == "numpy.linspace":
+            ok = len(args) == 3 and args[0] == 0 and args[1] == 1 and is_z3(args[2]) and z3.simplify(args[2] - (self.gs + 1)).eq(IntVal(0))
+            eng.oblige(st, "grid_is_linspace_0_1_with_grid_size_plus_one_points", BoolVal(bool(ok)), "wiring", node)
+            return Abstract("x_grid")
+        if name == "pandas.DataFrame" and not args and not kwargs:
+            return Abstract("y_values")
+        if name == "_tradeoff_curve":
+            g = args[0] if args else None
+            ok = len(args) == 2 and isinstance(g, Abstract) and g.tag == "group" and isinstance(args[1], Abstract) and args[1].tag == "gkey" and args[1].k is g.k \
+                and set(kwargs) == {"flip"} and kwargs["flip"] is st.env["self"].fields.get("flip")
+            eng.oblige(st, "roc_hull_of_the_group_with_the_callers_flip_setting_and_default_metrics", BoolVal(bool(ok)), "wiring", node)
+            return Abstract("hull", k=getattr(g, "k", None))
+        if name == "_interpolate_curve":
+            ok = len(args) == 5 and isinstance(args[0], Abstract) and args[0].tag == "hull" and args[1:4] == ["x", "y", "operation"] \
+                and isinstance(args[4], Abstract) and args[4].tag == "x_grid"
+            eng.oblige(st, "curve_is_the_hull_interpolated_at_the_shared_grid", BoolVal(bool(ok)), "wiring", node)
+            return Abstract("curve", k=getattr(args[0], "k", None) if args else None)
+        if name == "str":
+            return "g"
+        return super().on_call(eng, st, node, name, recv, args, kwargs)
+
+    def on_iter(self, eng, st, node, it):
+        if isinstance(it, Abstract) and it.tag == "grouped":
+            return IterSpec(M, lambda kk: (Abstract("gkey", k=kk), Abstract("group", k=kk)))
+        return NotImplemented
+
+    def on_subscript(self, eng, st, node, base, index):
+        if isinstance(base, PyDict) and isinstance(index, Abstract) and index.tag == "gkey":
+            hit = [v for kk, v in base.d.items() if kk is index]
+            if hit:
+                return hit[0]
+        if isinstance(base, Abstract) and base.tag == "curvemap" and isinstance(index, Abstract) and index.tag == "gkey":
+            return st.ghost.get("last_curve") if st.ghost.get("last_key") is index else Abstract("curve", k=index.k)
+        if isinstance(base, Abstract) and base.tag == "curve" and index == "y":
+            return Abstract("curve_y", k=base.k)
+        return super().on_subscript(eng, st, node, base, index)
+
+    def on_store_attr(self, eng, st, node, base, attr, value):
+        if isinstance(base, Obj) and attr == "_tradeoff_curve" and isinstance(value, PyDict) and not value.d:
+            base.fields[attr] = Abstract("curvemap")
+            return True
+        return NotImplemented
+
+    def on_store_subscript(self, eng, st, node, base, index, value):
+        if isinstance(base, Abstract) and base.tag == "curvemap":
+            ok = isinstance(index, Abstract) and index.tag == "gkey" and isinstance(value, Abstract) and value.tag == "curve" and value.k is index.k
+            eng.oblige(st, "curve_stored_under_its_own_group_value", BoolVal(bool(ok)), "wiring", node)
+            st.ghost["last_key"], st.ghost["last_curve"] = index, value
+            return True
+        if isinstance(base, Abstract) and base.tag == "y_values":
+            ok = isinstance(index, Abstract) and index.tag == "gkey" and isinstance(value, Abstract) and value.tag == "curve_y" and value.k is index.k
+            eng.oblige(st, "y_column_of_the_groups_own_curve_collected_under_its_value", BoolVal(bool(ok)), "wiring", node)
+            return True
+        return super().on_store_subscript(eng, st, node, base, index, value)
+
+    def havoc_abstract(self, eng, st, name, v):
+        return v
+
+    def loops(self):
+        return {0: LoopSpec(lambda st: [])}
+
+    def post(self, eng, st, status, value):
+        return [("falls_through_to_the_selection_of_the_shared_grid_point", BoolVal(status == "return" and value is None))]
+
+
+def tradeoff_curve_defaults():
+    """static obligation: the defaults that the equalized-odds call relies on (x = false positive rate, y = true positive rate)"""
+    from ..pyvc.core import Source
+    src = Source.load("fairlearn/postprocessing/_tradeoff_curve_utilities.py")
+    fn = src.func("_tradeoff_curve")
+    a = fn.args
+    names = [x.arg for x in a.args]
+    d = dict(zip(names[len(names) - len(a.defaults):], a.defaults))
+    d.update({k.arg: v for k, v in zip(a.kwonlyargs, a.kw_defaults) if v is not None})
+    got = {k: (v.value if isinstance(v, ast.Constant) else ast.unparse(v)) for k, v in d.items()}
+    return got
